@@ -204,6 +204,8 @@ func fbb.(*Message).AddFile(m, f) ()
 # section starts two bytes early); success is reported only for a complete section
 ghost var gSectionRead bool
 ghost var gTermRead bool
+ghost var gTermErr error
+ghost var gTermStr string
 
 func fbb.readSection(reader, readN) (buf, err)
   props C03 C09 C01
@@ -213,11 +215,66 @@ func fbb.readSection(reader, readN) (buf, err)
   call bufio.(*Reader).ReadString requires terminator-after-data [C09 C01]: gSectionRead && $0 == reader && $1 == '\n'
   call bufio.(*Reader).ReadString set gTermRead := true
   at return requires whole-section [C09 C01]: $r1 == nil ==> gSectionRead && gTermRead && len($r0) == readN
+  # success only with the CRLF terminator (or the end of the input) right after the data
+  call bufio.(*Reader).ReadString set gTermErr := $r1
+  call bufio.(*Reader).ReadString set gTermStr := $r0
+  at return requires terminator-checked [C09 C01]: $r1 == nil ==> gTermErr == io.EOF || (gTermErr == nil && streq(gTermStr, "\r\n"))
 
 func fbb.trimLeftSpace(r) ()
   props C03
   loop 0 reads-input each iteration discards one byte of the input
   requires reader: r != nil
+
+# the declared charset of the body: the charset parameter of Content-Type, the default otherwise
+ghost var gCTErr error
+ghost var gCTParams map[string]string
+func fbb.(*Message).Charset(m) (r)
+  props C09 C18
+  requires m: m != nil
+  call mime.ParseMediaType set gCTErr := $r2
+  call mime.ParseMediaType set gCTParams := $r1
+  ensures declared-charset: gCTErr == nil && haskey(gCTParams, "charset") ==> same(r, gCTParams["charset"])
+  ensures default-otherwise: gCTErr != nil || !haskey(gCTParams, "charset") ==> r == DefaultCharset
+
+# To / Cc: one address per header value, in header order
+func fbb.(*Message).To(m) (to)
+  props C09 C10
+  requires m: m != nil
+  call fbb.AddressFromString requires from-the-to-header: same($0, m.Header["To"][$idx])
+  at return requires every-to-value: haskey(m.Header, "To") ==> $idx0 >= len(m.Header["To"])
+
+func fbb.(*Message).Cc(m) (cc)
+  props C09 C10
+  requires m: m != nil
+  call fbb.AddressFromString requires from-the-cc-header: same($0, m.Header["Cc"][$idx])
+  at return requires every-cc-value: haskey(m.Header, "Cc") ==> $idx0 >= len(m.Header["Cc"])
+
+# all receivers: every To address, then every Cc address
+ghost var gTo []fbb.Address
+ghost var gCc []fbb.Address
+func fbb.(*Message).Receivers(m) (r)
+  props C09 C10 C01
+  requires m: m != nil
+  call fbb.(*Message).To set gTo := $r0
+  call fbb.(*Message).Cc set gCc := $r0
+  ensures count: len(r) == len(gTo) + len(gCc)
+  ensures every-to-then-every-cc: (forall k :: 0 <= k && k < len(gTo) ==> same(r[k], gTo[k])) && (forall k :: 0 <= k && k < len(gCc) ==> same(r[len(gTo) + k], gCc[k]))
+
+func fbb.(Address).String(a) (r)
+  props C09 C10
+  ensures bare-without-protocol: len(a.Proto) == 0 ==> same(r, a.Addr)
+  call fmt.Sprintf requires proto-colon-addr: len(a.Proto) > 0 && $0 == "%s:%s" && len($1) == 2 && same(unbox($1[0]), a.Proto) && same(unbox($1[1]), a.Addr)
+
+func fbb.(Address).IsZero(a) (r)
+  props C09
+  ensures def: r <==> len(a.Addr) == 0
+
+ghost var gAddrOf fbb.Address
+func fbb.(Address).EqualString(a, b) (r)
+  props C09
+  call fbb.AddressFromString requires parses-the-argument: same($0, b)
+  call fbb.AddressFromString set gAddrOf := $r0
+  ensures def: r <==> (streq(a.Proto, gAddrOf.Proto) && streq(a.Addr, gAddrOf.Addr))
 
 # ---- message construction API as used by other packages ----
 func fbb.NewMessage(t, mycall) (m)
@@ -596,6 +653,11 @@ func fbb.(*Message).ReadFrom(m, r) (err)
   call strconv.Atoi requires declared-size [C09]: same($0, slice[0])
   call strconv.Atoi set gFileSize := $r0
   call fbb.readSection#1 requires file-size-from-header [C09]: $0 == gRd && $1 == gFileSize
+  call fbb.(*WordDecoder).DecodeHeader requires decodes-the-name-part [C09]: same($1, slice[1])
+  # an attachment that cannot be read in full makes ReadFrom fail; the date is only looked at
+  # (and can only turn success into failure) after a clean read
+  call fbb.ParseDate requires only-after-a-clean-read [C09]: err == nil
+  at store#7 requires attachment-error-recorded [C09]: err != nil && $0 == err
 
 # C04 block verdict: nil is returned only if the running checksum including the
 # checksum byte is zero, the payload length equals the proposed compressed size,
